@@ -152,13 +152,19 @@ theorem ev_tc_look (q : Nat) (t : List Char) (ht : TokStart t) :
       obtain ⟨n, r2⟩ := x
       rw [hn] at hname hpn
       right
-      refine ⟨(n, toks r2), _, _, _, ?_, ?_⟩
-      · simp only [qTypeCond, tMap, tSeq, hkt]
+      have hname' : EvR G0 { c0 with look := true } (.ident "name") (q + 2 + (r1.length - (skipI r1).length)) (skipI r1)
+          ((skipI r1).length + 8) (.ok (q + 2 + (r1.length - (skipI r1).length) + n.length) r2 []) :=
+        hname.cast (by simp [emits])
+      have hq : qTypeCond (toks t) = some (n, toks r2) := by
+        simp only [qTypeCond, tMap, tSeq, hkt]
         have : pName (toks r1) = some (n, toks r2) := by rw [hpn]; rfl
         rw [this]; rfl
-      · refine ev_rule_look rfl (by decide) (by decide) (by rfl) tc_ok.find (N := 2 * t.length + 20) ?_ (by omega)
+      have hev : EvR G0 { c0 with look := true } (.ident "type_condition") q t (24 * t.length + 22)
+          (.ok (q + 2 + (r1.length - (skipI r1).length) + n.length) r2 []) := by
+        refine ev_rule_look rfl (by decide) (by decide) (by rfl) tc_ok.find (N := 2 * t.length + 20) ?_ (by omega)
         rw [hbc]
-        exact (EvR.seq_skip rfl hkw' hsk hname (by omega) (by omega) (by omega)).cast rfl
+        exact (EvR.seq_skip rfl hkw' hsk hname' (by omega) (by omega) (by omega)).cast rfl
+      exact ⟨_, _, _, _, hq, hev⟩
 
 theorem reads_notTC (L : Nat) : Reads L (.neg (.ident "type_condition")) 24 (tNot qTypeCond) bNil :=
   reads_neg (B := 22) (fun q t ht => ev_tc_look q t ht) (by omega)
